@@ -37,7 +37,7 @@ CONSTANTS Clients,    \* set of client ids
 Keys == {KeySeq[i] : i \in 1..Len(KeySeq)}
 
 VARIABLES kv,         \* key -> sequence of versions [tx, kind, v, rk, at]; revision = position
-          zs,         \* set of sorted-set entries [set, sc, k, at]
+          zs,         \* set of sorted-set entries [set, sc, k, at, tx] (tx = transaction that added the entry first)
           committed,  \* id of the last committed transaction
           pend,       \* client -> [st, op, res]
           orph        \* writes whose client stopped waiting (lost reply): may still take effect at any later time
@@ -156,8 +156,9 @@ HistRes(op, n) ==
 ZLess(a, b) == \/ a.sc < b.sc
                \/ a.sc = b.sc /\ KIdx(a.k) < KIdx(b.k)
                \/ a.sc = b.sc /\ a.k = b.k /\ a.at < b.at
-ZScanRes(op, n) ==
-  LET asc  == SetToSortSeq({z \in zs : z.set = op.set}, ZLess)
+\* n: view of the key-value index, m: view of the sorted-set index (two indexes; m = n in the specification of atomicity)
+ZScanRes(op, n, m) ==
+  LET asc  == SetToSortSeq({z \in zs : z.set = op.set /\ z.tx <= m}, ZLess)
       ord  == IF op.desc THEN Reverse(asc) ELSE asc
       read == Limited(ord, op.limit)
   IN Collect([i \in 1..Len(read) |->
@@ -210,10 +211,13 @@ CheckErr(op, n) ==
 
 Out(res, nkv, nzs, ncm) == [res |-> res, kv |-> nkv, zs |-> nzs, cm |-> ncm]
 NoEffect(e) == Out(ErrRes(e), kv, zs, committed)
+SameZ(a, b) == a.set = b.set /\ a.sc = b.sc /\ a.k = b.k /\ a.at = b.at
 Applied(W, Z) ==     \* W: key -> new version (partial function), Z: new sorted-set entries; one transaction
   Out(Res("ok", committed + 1, <<>>, 0),
       [k \in Keys |-> IF k \in DOMAIN W THEN Append(kv[k], W[k]) ELSE kv[k]],
-      zs \cup Z, committed + 1)
+      zs \cup {[set |-> z.set, sc |-> z.sc, k |-> z.k, at |-> z.at, tx |-> committed + 1] :
+                  z \in {y \in Z : ~\E x \in zs : SameZ(x, y)}},
+      committed + 1)
 NoW == [k \in {} |-> NoVer]
 
 \* the transaction a write commits (tx id = committed + 1); b /\ at = 0 in ExecAll binds to this very transaction
@@ -244,7 +248,7 @@ AtomicAt(op, n, m) ==
   ELSE CASE op.t = "Get"    -> ReadOut(GetRes2(op, n, m))
          [] op.t = "GetAll" -> ReadOut(GetAllRes(op, n))
          [] op.t = "Scan"   -> ReadOut(ScanRes(op, n))
-         [] op.t = "ZScan"  -> ReadOut(ZScanRes(op, n))
+         [] op.t = "ZScan"  -> ReadOut(ZScanRes(op, n, m))
          [] op.t = "Hist"   -> ReadOut(HistRes(op, n))
          [] op.t = "Count"  -> ReadOut(CountRes(op, n))
 
@@ -272,11 +276,18 @@ Outcomes(op) ==
 \*   "stale":    its checks / reads were evaluated on some older committed state n, lo <= n <= committed
 \*   "refsplit": the lookup of a reference and the lookup of its target were made on two different states n <= m = committed
 \*   "both":     n <= m <= committed
+\* (two different states only matter when the first lookup finds a reference)
+FindsRef(op, n) ==
+  LET vs == VersAt(op.k, n)
+      idx == IF op.mode = "atrev" THEN (IF op.n > 0 THEN op.n ELSE Len(vs) + op.n) ELSE Len(vs)
+  IN op.mode # "attx" /\ idx \in 1..Len(vs) /\ vs[idx].kind = "r"
 DiagOutcomes(op, diag, lo) ==
   LET L == IF lo < 0 THEN 0 ELSE lo
-      pairs == IF diag = "stale" THEN {<<n, n>> : n \in L..committed}
-               ELSE IF diag = "refsplit" THEN IF op.t = "Get" THEN {<<n, committed>> : n \in L..committed} ELSE {<<committed, committed>>}
-               ELSE IF op.t = "Get" THEN {<<n, m>> \in (L..committed) \X (L..committed) : n <= m}
+      split(ms) == {<<n, m>> \in (L..committed) \X ms : n = m \/ (n < m /\ FindsRef(op, n))}
+      pairs == IF diag \in {"stale", "both"} /\ op.t = "ZScan" THEN (L..committed) \X (L..committed)   \* two indexes
+               ELSE IF diag = "stale" THEN {<<n, n>> : n \in L..committed}
+               ELSE IF diag = "refsplit" THEN IF op.t = "Get" THEN split({committed}) ELSE {<<committed, committed>>}
+               ELSE IF op.t = "Get" THEN split(L..committed)
                ELSE {<<n, n>> : n \in L..committed}
   IN IF op.t = "Get" /\ op.mode = "since" /\ op.n > committed THEN {ReadOut(ErrRes("IllegalArguments"))}
      ELSE {AtomicAt(op, p[1], p[2]) : p \in pairs} \cup Extra(op, Atomic(op))
@@ -330,6 +341,6 @@ LinOrphan(i) ==
 Dense ==        \* every key's versions are ordered by tx, no tx beyond the committed frontier
   \A k \in Keys : /\ \A i \in 1..Len(kv[k]) : kv[k][i].tx \in 1..committed
                   /\ \A i \in 1..(Len(kv[k]) - 1) : kv[k][i].tx < kv[k][i + 1].tx
-ZSound == \A z \in zs : z.k \in Keys /\ z.at <= committed
+ZSound == \A z \in zs : z.k \in Keys /\ z.at <= committed /\ z.tx \in 1..committed
 LinInv == Dense /\ ZSound
 =============================================================================
